@@ -125,6 +125,10 @@ def check_event(seq, i, prev, rec, V):
             if after is None or before is None or abs(after - before) > unit * (1 + 1e-9):
                 V('C17:reject:text:' + w, f'rejected entry {text!r} in {w}: text is {rec["texts"][w]!r}, was {rec["texts_before"][w]!r}', **where)
             S.count(None, 'rejected')
+    # -- the D50 up/down buttons document their own limits (pseudo-liquid limit < D50 <= Dp/4, evaluated before the press)
+    if ev[0] == 'click' and str(ev[1]).startswith('D50_') and not close(q['D50'], p['D50'], 1e-12):
+        if not (dlim_mm(p) * (1 - 1e-12) < q['D50'] * 1000 <= 0.25 * p['Dp'] * 1000 * (1 + 1e-12)):
+            V('C17:bounds:D50-button', f'after {ev}: the button moved D50 to {q["D50"] * 1000} mm, outside ({dlim_mm(p)}, {0.25 * p["Dp"] * 1000}] mm', **where)
     # -- bounds (for sessions inside the envelope)
     if premise:
         if not (25 <= q['Dp'] * 1000 <= 1500 and 1.5 <= q['rhos'] <= 7.0 and 0.01 <= q['Cv'] <= 0.5):
